@@ -288,11 +288,6 @@ def applyL (F : FloatOps) (self : HVal) (op : LOp) (xs : List HVal) : List HVal 
 
 /-! ### map operations (`core_lib/map.rs`, `run_index_assign` Map arm) -/
 
-/-- keys on which `ValueKey::partial_cmp` is a total preorder: numbers only or strings only, plus null -/
-def keysComparable (ks : List Val) : Bool :=
-  ks.all (fun k => match k with | .num _ | .null => true | _ => false) ||
-  ks.all (fun k => match k with | .str _ | .null => true | _ => false)
-
 /-- the fixed callback of the modelled `map.update`: `|x| (x, 0)` -/
 def updFn (v : HVal) : HVal := .tuple [v, .num (.i 0)]
 
@@ -334,12 +329,9 @@ def applyM (F : FloatOps) (mech : Bool) (self : HVal) (op : MOp) (es : List (Val
   | .extend other => (OMap.extend (insM F mech) es other, .ok self)
   | .clear => ([], .ok self)
   | .sort =>
-    -- `map.sort()`: `try_sort_by` with `ValueKey::partial_cmp`. On keys that are all numbers or all
-    -- strings (null sorts first) that comparison is a total preorder and the result is the stable
-    -- sorted permutation (`sortEntries`); on keys of mixed kinds it calls unrelated keys "Equal",
-    -- is not transitive, and the result is whatever the merge sort produces (finding F-C14-5)
-    if keysComparable (es.map Prod.fst) then (Sorting.sortEntries F es, .ok self)
-    else ((Sorting.trySortBy (fun b a => some (keyCmp F b.1 a.1 == .lt)) es).1, .ok self)
+    -- `map.sort()`: `try_sort_by` with `ValueKey::partial_cmp`, a total order on all keys since fix
+    -- abae06d (F-C14-5), so the result is the stable sorted permutation
+    (Sorting.sortEntries F es, .ok self)
   | .sortVal =>
     -- `m.sort(|k, v| v)`: the entries are drained, sorted by value with `try_sort_by` and put back —
     -- also when a comparison failed (then in the order reached so far)
